@@ -129,8 +129,13 @@ def _shape_of(e: ast.AST, env: Dict[str, Tuple[str, str]]) -> Optional[Tuple[str
     if isinstance(e, ast.Attribute) and e.attr == "T":
         s = _shape_of(e.value, env)
         return (s[1], s[0]) if s else None
-    if isinstance(e, ast.Call) and norm(e.func) == "chunked_pairwise_distance" and len(e.args) >= 2:
-        return (norm(e.args[0]), norm(e.args[1]))
+    if isinstance(e, ast.Call) and norm(e.func) == "chunked_pairwise_distance":
+        a = list(e.args)
+        kws = {k.arg: k.value for k in e.keywords}
+        first = a[0] if a else kws.get("data1")
+        second = a[1] if len(a) > 1 else kws.get("data2")
+        if first is not None and second is not None:
+            return (norm(first), norm(second))
     if isinstance(e, ast.Call) and isinstance(e.func, ast.Attribute) and e.func.attr in ("astype", "copy"):
         return _shape_of(e.func.value, env)
     return None
